@@ -201,6 +201,13 @@ def _build_dataclass(cls, var, n, size, depth=0):
     values = {}
     with_optional = (var % 2 == 0)
     bool_idx = 0
+
+    def leave_out(f):
+        # absent on the wire: the decoder leaves the dataclass default in place
+        has_default = f.default is not dataclasses.MISSING or f.default_factory is not dataclasses.MISSING
+        if not has_default:
+            values[f.name] = None
+
     for f in dataclasses.fields(cls):
         md = f.metadata
         if 'if_true' in md and not values.get(md['if_true']):
@@ -210,7 +217,7 @@ def _build_dataclass(cls, var, n, size, depth=0):
             values[f.name] = None
             continue
         if 'optional' in md and not with_optional:
-            values[f.name] = None
+            leave_out(f)
             continue
         ftype = md['type']
         idx = 0
@@ -225,7 +232,7 @@ def build_message(family, name, var):
     """One benign instance of the class, a pure function of (family, name, var); body <= 4 KiB."""
     cls = CLASSES[family][name]
     size = var % 5
-    n = (0, 1, 3, 2, 24)[size]
+    n = (0, 1, 3, 2, 64)[size]
     while True:
         msg = _build_dataclass(cls, var, n, size)
         if len(msg.serialize()) <= 4096 + 4 or n == 0:
@@ -940,6 +947,8 @@ def _run(world: World, plan):
 
     async def do_teardown(lk, td):
         kind = td['kind']
+        if kind == 'trunc_silence' and lk['name'] == 'server':
+            kind = 'trunc_eof'      # 600 s timeout shifted by every ping: out of scope (see INFO)
         lk['torn'] = kind
         lk['torn_at'] = loop.time()
         fired['teardown_' + kind] += 1
@@ -1285,6 +1294,12 @@ def _run(world: World, plan):
 
     # task deaths ----------------------------------------------------------------------------------
     for rec in world.loop.exc_contexts:
+        if rec.get('exc_type') == 'ConnectionWriteError' and (rec.get('coro') or '').endswith('.send_message'):
+            # a fire-and-forget reply (queue_message) could not be written because the link had just gone:
+            # nobody awaits that task, so its write error is "never retrieved".  Not a reader, not caused by
+            # parsing: outside the statement (reported as an observation, see probe)
+            world.probe('unretrieved_write_error_of_queued_reply')
+            continue
         world.violate('C02.task_died', exc=rec.get('exc_type'), coro=rec.get('coro'),
                       message=(rec.get('message') or '')[:60])
     for lk in L.values():
